@@ -913,3 +913,38 @@ Fixpoint s_script (ops : list sop) (s : stream) : list sout :=
 Definition new_stream (bs : bytes) : stream := mkS bs [] None.
 Definition new_list_stream (bs : bytes) (n : N) : stream :=
   mkS (if n =? 0 then bs else take n bs) [] (Some (KList, n, x00)).
+
+(** * The encoder's buffer, literally (encbuffer.go): string data without list headers, the
+    list headers apart (offset into the string data, size), the running size of all headers.
+    [list] opens a header remembering the header bytes written so far in its size field,
+    [listEnd] turns that into the payload size and accounts for the header, [copyTo] interleaves.
+    The functional encoder above is what the theorems are about; the driver compares the two on
+    every EncoderBuffer operation of the harness (statement in C16/Open.v). *)
+Record ebuf := mkE { e_str : bytes; e_heads : list (N * N); e_lhsize : N }.
+Definition eb_empty : ebuf := mkE [] [] 0.
+Definition eb_size (b : ebuf) : N := len (e_str b) + e_lhsize b.
+Definition eb_append (d : bytes) (b : ebuf) : ebuf := mkE (e_str b ++ d) (e_heads b) (e_lhsize b).
+Definition eb_list (b : ebuf) : ebuf * nat :=
+  (mkE (e_str b) (e_heads b ++ [(len (e_str b), e_lhsize b)]) (e_lhsize b), length (e_heads b)).
+Fixpoint set_nth {A} (n : nat) (x : A) (l : list A) : list A :=
+  match l, n with
+  | [], _ => []
+  | _ :: r, O => x :: r
+  | y :: r, S n' => y :: set_nth n' x r
+  end.
+Definition eb_list_end (idx : nat) (b : ebuf) : ebuf :=
+  let '(off, sz0) := nth idx (e_heads b) (0, 0) in
+  let size := eb_size b - off - sz0 in
+  mkE (e_str b) (set_nth idx (off, size) (e_heads b)) (e_lhsize b + head_size size).
+Fixpoint eb_item (x : item) (b : ebuf) : ebuf :=
+  match x with
+  | Str s => eb_append (enc_str s) b
+  | List l => let '(b1, idx) := eb_list b in eb_list_end idx (fold_left (fun b' y => eb_item y b') l b1)
+  end.
+Fixpoint eb_copy (heads : list (N * N)) (str : bytes) (strpos : N) : bytes :=
+  match heads with
+  | [] => drop strpos str
+  | (off, size) :: r => take (off - strpos) (drop strpos str) ++ list_head size ++ eb_copy r str off
+  end.
+Definition eb_bytes (b : ebuf) : bytes := eb_copy (e_heads b) (e_str b) 0.
+Definition encode_via_buffer (x : item) : bytes := eb_bytes (eb_item x eb_empty).
